@@ -128,7 +128,15 @@ def build(sc):
     ov = json.load(open(os.path.join(VDIR, 'overlay.json')))
     gen = [VR.HEADER % SRC]
     lineno = lambda: sum(x.count('\n') + 1 for x in gen)  # noqa: E731
-    gen.append(open(os.path.join(RDIR, 'prelude_a.rs')).read().rstrip('\n'))
+    pa = open(os.path.join(RDIR, 'prelude_a.rs')).read().rstrip('\n')
+    # inside a delivery the writer side of the half-lock (mutex + barrier wait) must be unreachable: in THIS generated file
+    # `HalfLock::write` gets the precondition `false`, so a call from the dispatcher fails a verifier-generated check on
+    # that line of the real code (obligation C03.V-NO-PANIC)
+    w_old = "pub fn write(&self) -> (r: WriteGuard<'_, T>) ensures r.stores() == 0"
+    if pa.count(w_old) != 1:
+        raise Lost('internal: HalfLock::write contract not found in prelude_a.rs')
+    pa = pa.replace(w_old, "pub fn write(&self) -> (r: WriteGuard<'_, T>) requires false /* never from a signal handler: takes the writer mutex and waits for readers */ ensures r.stores() == 0")
+    gen.append(pa)
     gen.append(open(os.path.join(VDIR, 'prelude_h.rs')).read().rstrip('\n'))
     gen.append('// ---- EXTRACTED type definitions (verbatim from %s, see `extraction` in the evidence)' % SRC)
     for n in ('ActionId', 'Slot', 'SignalData', 'Prev', 'GlobalData'):
